@@ -235,7 +235,7 @@ func nativeReplay(L *Loaded, h *HarnessSpec, rv *ReplayVector, file string) (rep
 	cmd.Run()
 	txt := out.String()
 	lines := strings.Split(strings.TrimSpace(txt), "\n")
-	if len(lines) > 40 {
+	if max := 40; len(lines) > max && os.Getenv("SYMGO_FULL_NATIVE_OUTPUT") == "" {
 		lines = append(lines[:25], lines[len(lines)-15:]...)
 	}
 	tail = strings.Join(lines, "\n")
